@@ -109,6 +109,9 @@ def choose(
         polynomial([q0, q1, q1**2])
 
     """
+    if isinstance(choices, (list, tuple)):
+        # the choices only have to be broadcastable against each other
+        choices = list(numpoly.broadcast_arrays(*choices))
     choices = numpoly.aspolynomial(choices)
     a = numpy.asarray(a)
     result = numpy.choose(a, choices=choices.values, out=out, mode=mode)
